@@ -40,6 +40,7 @@ def run(ctx):
     symmetry(ctx, facts)
     generate_vis(ctx, facts)
     forwarders(ctx, facts)
+    generator_shape(ctx, facts)
     ctx.assume("AES / HKDF behave as ideal primitives; absence of (step, index) reuse over all executions is not decided")
 
 
@@ -310,3 +311,61 @@ def forwarders(ctx, facts):
         e = str(flow.expr_of(sb, {"cp": [0]}))
         ok = "('arg', 1, 'prss')" in e
         ctx.ob("WHO-forward", "Sharded::cross_shard_prss:field", ok, "hands out the shared (cross-shard) endpoint stored in Sharded.prss" if ok else "Sharded::cross_shard_prss does not return its own cross-shard endpoint", site_of(sb))
+
+
+def strip_view(e):
+    """peel borrows / slice views (deref_mut, from_mut_slice, as_mut, unsize casts) down to the buffer expression"""
+    while True:
+        e = flow.strip_casts(e)
+        if e[0] == "call" and re.search(r"(Deref::deref|DerefMut::deref_mut|from_mut_slice|from_slice|AsMut::as_mut|AsRef::as_ref|as_mut_slice|as_slice)$", e[1]) and e[2]:
+            e = e[2][0]
+            continue
+        return e
+
+
+def generator_shape(ctx, facts):
+    """The per-step generator: key = HKDF-expand(secret; info = the step string), value(index) = AES_k(index) XOR index
+    (the MMO construction), with the repeated-index guard consulted before the block is produced."""
+    ctx.rule("SHAPE-generator: GeneratorFactory::generator expands the KDF with the caller's context (the step) into the key that Aes256::new receives; Generator::generate encrypts to_le_bytes(index) in place with the generator's cipher and returns from_le_bytes(buf) XOR index, after use_index(index) has been consulted")
+    P = "protocol::prss::crypto::"
+    b = facts.bodies.get(P + "GeneratorFactory::generator")
+    if b is None:
+        ctx.missing("SHAPE-generator", "GeneratorFactory::generator")
+    else:
+        ctx.count(bodies=1)
+        ex = [(bb, t) for bb, t in b.calls() if (F.callee(t)[0] or "").endswith("Hkdf::<H, I>::expand")]
+        nw = [(bb, t) for bb, t in b.calls() if re.search(r"KeyInit::new$", F.callee(t)[0] or "")]
+        ok = False
+        if len(ex) == 1 and len(nw) == 1:
+            info = flow.strip_casts(flow.expr_of(b, ex[0][1]["args"][1]))
+            kbuf = strip_view(flow.expr_of(b, ex[0][1]["args"][2]))
+            knew = strip_view(flow.expr_of(b, nw[0][1]["args"][0]))
+            dom = b.dominators()
+            ok = info == ("arg", 2) and kbuf == knew and kbuf[0] == "call" and flow.dominates(dom, ex[0][0], nw[0][0]) and str(flow.expr_of(b, ex[0][1]["args"][0])) == "('arg', 1, 'kdf')"
+        ctx.ob("SHAPE-generator", "generator:key=HKDF(secret, step)", ok, "the AES key is the KDF output for this step's context" if ok else "the generator's AES key is not HKDF-expand(self.kdf, info = the step context): generators of different steps would share a key (or the key is not derived at all)", site_of(b, ex[0][0]) if ex else site_of(b))
+    g = facts.bodies.get(P + "Generator::generate")
+    if g is None:
+        ctx.missing("SHAPE-generator", "Generator::generate")
+        return
+    ctx.count(bodies=1)
+    dom = g.dominators()
+    enc = [(bb, t) for bb, t in g.calls() if (F.callee(t)[0] or "").endswith("BlockEncrypt::encrypt_block")]
+    tol = [(bb, t) for bb, t in g.calls() if (F.callee(t)[0] or "").endswith("::to_le_bytes")]
+    frl = [(bb, t) for bb, t in g.calls() if (F.callee(t)[0] or "").endswith("::from_le_bytes")]
+    ok = False
+    if len(enc) == 1 and len(tol) == 1 and len(frl) == 1:
+        buf = ("call", F.callee(tol[0][1])[0], tuple(flow.expr_of(g, a, max_depth=20) for a in tol[0][1]["args"]))
+        ebuf = strip_view(flow.expr_of(g, enc[0][1]["args"][1], max_depth=20))
+        fbuf = strip_view(flow.expr_of(g, frl[0][1]["args"][0], max_depth=20))
+        idx_e = flow.strip_casts(flow.expr_of(g, tol[0][1]["args"][0], max_depth=20))
+        cipher = str(flow.expr_of(g, enc[0][1]["args"][0]))
+        ret = flow.strip_casts(flow.expr_of(g, {"cp": [0]}, max_depth=20))
+        okx = ret[0] == "bin" and ret[1] == "BitXor" and any(flow.strip_casts(z) == idx_e for z in ret[2:4]) and any("from_le_bytes" in str(z) for z in ret[2:4])
+        ok = buf == ebuf and buf == fbuf and cipher == "('arg', 1, 'cipher')" and okx and flow.dominates(dom, tol[0][0], enc[0][0]) and flow.dominates(dom, enc[0][0], frl[0][0]) and "('arg', 2)" in str(idx_e)
+    ctx.ob("SHAPE-generator", "generate:AES(index)^index", ok, "value = AES_k(index) XOR index over the caller's index" if ok else "the generated value is not AES_k(to_le_bytes(index)) XOR index of the requested index (e.g. the block is not encrypted, another buffer is read back, or the feed-forward XOR is missing)", site_of(g, enc[0][0]) if enc else site_of(g))
+    # the debug-build reuse guard, when compiled in, must see the same index and precede the encryption
+    ui = [(bb, t) for bb, t in g.calls() if (F.callee(t)[0] or "").endswith("UsedSet::use_index")]
+    if ui:
+        okq = len(enc) == 1 and flow.dominates(dom, ui[0][0], enc[0][0]) and "('arg', 2)" in str(flow.expr_of(g, ui[0][1]["args"][1], max_depth=12))
+        unw = any((F.callee(t)[0] or "").endswith("Result::<T, E>::unwrap") and "use_index" in str(flow.expr_of(g, t["args"][0], max_depth=12)) for bb, t in g.calls())
+        ctx.ob("SHAPE-generator", "generate:reuse-guard", okq and unw, "use_index(index) is checked (and its error not ignored) before the block is produced" if okq and unw else "the repeated-index guard is bypassed, sees a different index or its verdict is ignored", site_of(g, ui[0][0]))
